@@ -5,6 +5,7 @@
 package vtime
 
 import (
+	"context"
 	"time"
 
 	"github.com/openfga/openfga/internal/verifrt/vrt"
@@ -45,6 +46,17 @@ func Since(t Time) Duration {
 		return Now().Sub(t)
 	}
 	return time.Since(t)
+}
+
+// WithTimeoutHook, when set by a harness, replaces context.WithTimeout in packages instrumented with
+// `vgen -ctxtimeout` (the deadline then lives on the harness-owned clock, see h/cctl). Nil = the real one.
+var WithTimeoutHook func(parent context.Context, d Duration) (context.Context, context.CancelFunc)
+
+func WithTimeout(parent context.Context, d Duration) (context.Context, context.CancelFunc) {
+	if h := WithTimeoutHook; h != nil {
+		return h(parent, d)
+	}
+	return context.WithTimeout(parent, d)
 }
 
 // After is passed through (a native timer channel; not modelled — no scheduler harness runs code that waits on it).
